@@ -51,17 +51,33 @@ fn map_unchanged(m: &UMap, model: &BTreeMap<u64, u64>) -> Result<(), String> {
 pub fn run(ctx: &Ctx) -> Outcome {
     let mut out = Outcome::new(
         "every public guard-taking entry point of HashMap, HashSet and the with_guard reference wrappers (list cross-checked against a source scan by the supervisor) \
-         x {never-used map, populated list bins, populated tree bin} called with a guard of an unrelated seize::Collector: must panic before touching the map; \
+         x {never-used map, populated list bins, populated tree bin} x {guard of an unrelated seize::Collector, guard of a sibling map, guard of the map swapped into this map's old place} : must panic before touching the map; \
          distinct = distinct (entry point, map state) pairs",
     );
     install_panic_capture();
     let foreign = seize::Collector::new();
     let states: [(&str, bool, u8); 3] = [("empty", false, UNIFORM), ("populated", true, UNIFORM), ("tree-bin", true, CONSTANT)];
-    for (sname, populated, mode) in states {
+    // where the foreign guard comes from: an unrelated collector, a sibling map of the same type,
+    // or the map that now lives where this map lived before the two were swapped (both used before)
+    let provs = ["unrelated collector", "sibling map", "map swapped into this map's old place"];
+    let nprov = ctx.args.u64("provenances", 3) as usize;
+    for (prov, pname) in provs.iter().enumerate().take(nprov) {
+    for (sname0, populated, mode) in states {
+        let sname_s = if prov == 0 { sname0.to_string() } else { format!("{sname0}, guard of {pname}") };
+        let sname = sname_s.as_str();
         macro_rules! case {
             ($name:expr, |$m:ident, $fg:ident| $body:expr) => {{
-                let ($m, model) = make_map(populated, mode);
-                let $fg = foreign.enter();
+                let ($m, model0) = make_map(populated, mode);
+                let (mut other, model_o) = make_map(true, mode);
+                #[allow(unused_mut)]
+                let mut $m = $m;
+                let model = if prov == 2 {
+                    std::mem::swap(&mut $m, &mut other);
+                    model_o
+                } else {
+                    model0
+                };
+                let $fg = if prov == 0 { foreign.enter() } else { other.guard() };
                 QUIET_PANICS.with(|q| q.set(true));
                 let r = std::panic::catch_unwind(std::panic::AssertUnwindSafe(|| {
                     let _ = $body;
@@ -145,14 +161,19 @@ pub fn run(ctx: &Ctx) -> Outcome {
         // ---- sets
         macro_rules! scase {
             ($name:expr, |$s:ident, $fg:ident| $body:expr) => {{
-                let $s = make_set(populated, mode);
+                #[allow(unused_mut)]
+                let mut $s = make_set(populated, mode);
+                let mut other_set = make_set(true, mode);
+                if prov == 2 {
+                    std::mem::swap(&mut $s, &mut other_set);
+                }
                 let before: Vec<u64> = {
                     let g = $s.guard();
                     let mut v: Vec<u64> = $s.iter(&g).copied().collect();
                     v.sort();
                     v
                 };
-                let $fg = foreign.enter();
+                let $fg = if prov == 0 { foreign.enter() } else { other_set.guard() };
                 QUIET_PANICS.with(|q| q.set(true));
                 let r = std::panic::catch_unwind(std::panic::AssertUnwindSafe(|| {
                     let _ = $body;
@@ -260,6 +281,7 @@ pub fn run(ctx: &Ctx) -> Outcome {
                 o == s.with_guard(&fg)
             });
         }
+    }
     }
     // positive control: the map's own guard is accepted everywhere (so a blanket panic would show)
     {
